@@ -24,4 +24,10 @@ def main(repo, build, shadowgen):
     with open(os.path.join(build, "logs", "validate-shadow.log"), "w") as f:
         f.write(p.stdout)
     shutil.rmtree(os.path.join(build, "shadow-tests-target"), ignore_errors=True)
-    return 0 if (failed == 0 and not errs and passed > 0) else 2
+    # the cfg(kani) models of std::io / std collections against std (differential run)
+    root = os.path.dirname(os.path.abspath(__file__))
+    env2 = dict(os.environ, CARGO_NET_OFFLINE="true", CARGO_TARGET_DIR=os.path.join(build, "modelcheck-target"), RUSTFLAGS="--cfg kani")
+    q = subprocess.run(["cargo", "run", "--offline"], cwd=os.path.join(root, "modelcheck"), env=env2, stdout=subprocess.PIPE, stderr=subprocess.STDOUT, text=True)
+    print(q.stdout.strip().splitlines()[-1] if q.stdout.strip() else "modelcheck: no output")
+    shutil.rmtree(os.path.join(build, "modelcheck-target"), ignore_errors=True)
+    return 0 if (failed == 0 and not errs and passed > 0 and q.returncode == 0) else 2
